@@ -82,7 +82,7 @@ struct HaWorld : World {
         switch (op.k) {
         case HA_PUT: { int api = (int)r.below(4); int klass = api >= 2 ? (r.chance(1, 2) ? 1 : 5) : (int)r.below(6); op.b = (int)r.below(1 << 20); op.c = gen_hvlen(r); if (klass == 1 || klass == 5) op.c = std::max(2, op.c); op.d = api | (klass << 2); break; }
         case HA_GET: op.d = (int)r.below(3); break;
-        case HA_REMOVE: op.d = (int)r.below(3); if (r.chance(1, 5)) { op.d = 3; op.b = (int)r.below(64); }
+        case HA_REMOVE: op.d = (int)r.below(3); if (r.chance(1, 5)) { op.d = 3; op.b = r.chance(1, 8) ? -r.range(1, 5) : (int)r.below(64); }
 #if !QSIM_STRUCT
             op.d &= 1;
 #endif
@@ -208,13 +208,15 @@ struct HaWorld : World {
 #else
             int before_home = 0;
 #endif
-            bool ok;
+            bool ok; int perr = 0;
             {
                 InSut s;
+                errno = 0;
                 if (api == 0) ok = t->put_by_obj(t, kb.p, kb.n, vb.p, vb.n);
                 else if (api == 1) ok = t->put(t, (const char *)kb.p, vb.p, vb.n);
                 else if (api == 2) ok = t->putstr(t, (const char *)kb.p, (const char *)vb.p);
                 else ok = t->putstrf(t, (const char *)kb.p, "%s", (const char *)vb.p);
+                perr = errno;
             }
             if (primary && ok) {
                 if (before_home < 0) x.st.add(before_home == -1 ? "probe.relocated_foreign_collision_key" : "probe.relocated_foreign_extension_block");
@@ -222,12 +224,16 @@ struct HaWorld : World {
                 if (v.size() > (size_t)SLOT_DATA) x.st.add("probe.multi_slot_value");
             }
             if (ok) return R_ok();
+            // refused because an injected allocation failed: the runner compares the whole table with the state before the call
+            if (sim_fault_fired() > 0) return R_fail("enomem");
             // a failed put: own key unchanged or absent, never partially written. Canonicalise to "absent".
             sim_fault_suspend(true);
             size_t nsz = 0; void *now; { InSut s; now = t->get_by_obj(t, kb.p, kb.n, &nsz); }
             Bytes nowv; bool present = now != nullptr; if (now) { nowv.assign((char *)now, nsz); free(now); }
             Result r;
-            if (!present) r = R_fail("own-key-ok");
+            // the statement names the error: a put refused for lack of room "fails with an out-of-space error"
+            if (perr != ENOBUFS) r = R_fail("refused-but-errno-is-not-ENOBUFS:" + num(perr));
+            else if (!present) r = R_fail("own-key-ok");
             else if (old && nowv == oldv) {
                 // refused for lack of space: canonical form "absent". A call that failed because an allocation was refused must leave the key alone.
                 if (sim_fault_fired() == 0) { InSut s; t->remove_by_obj(t, (const char *)kb.p, kb.n); }
@@ -263,6 +269,7 @@ struct HaWorld : World {
                 // any slot index in range: only an index that holds a key removes (exactly) that key; free slots and value
                 // extension blocks are refused without any effect
                 int idx = ((op.b % maxslots) + maxslots) % maxslots;
+                if (op.b < 0) { { InSut s; ok = t->remove_by_idx(t, op.b); } return ok ? R_ok() : R_fail(); }    // a negative index is refused
                 if (primary) { int c = slots(i)[idx].count; x.st.add(c == 0 ? "probe.remove_by_idx_free_slot" : c == -2 ? "probe.remove_by_idx_extension_block" : "probe.remove_by_idx_key_slot"); }
                 { InSut s; ok = t->remove_by_idx(t, idx); }
                 return ok ? R_ok() : R_fail();
@@ -382,6 +389,7 @@ struct HaWorld : World {
         if (op.k != HA_REMOVE || (op.d & 3) != 3) return;
         int idx = ((op.b % maxslots) + maxslots) % maxslots;
         op.c = 0;
+        if (op.b < 0) return;
         for (size_t kn = 0; kn < keys.size(); kn++) if (slot_of(in[0], keys[kn]) == idx) { op.c = (int)kn + 1; break; }
     }
 #endif
